@@ -32,7 +32,7 @@ for p in props:
     print("* **Model**: %s%s" % (", ".join("`%s`" % m.replace("TT.", "") for m in models), "; lemmas " + ", ".join("`%s`" % m.replace("TT.", "") for m in lem) if lem else ""))
     print("* **Theorems** (`TT/Props/%s.lean`, %d, plus %d non-vacuity examples): %s" % (pid, len(thms), nex, ", ".join("`%s`" % t for t in thms)))
     print("* **What they say**: %s" % manifest_data.CLAIMED[pid]["text"])
-    print("* **Tie to the code** (suite%s `%s`%s): %s" % ("s" if len(cfg["suites"]) > 1 else "", ", ".join(cfg["suites"]), ", exhaustive" if cfg.get("exhaustive") else "", cfg["rule"]))
+    print("* **Tie to the code** (suite%s `%s`%s): %s" % ("s" if len(cfg["suites"]) > 1 else "", ", ".join(cfg["suites"] + ["%s (borrowed)" % b for b in sorted(cfg.get("borrowed_suites", {}))]), ", exhaustive" if cfg.get("exhaustive") else "", cfg["rule"]))
     print("* **Trusted / modelled, not verified**: " + "; ".join(cfg.get("trusted", [])))
     if cfg.get("assumptions"):
         print("* **Not asserted**: " + "; ".join(cfg["assumptions"]))
